@@ -31,5 +31,7 @@ def run(ctx):
     R.r05_3_pairs(ctx)
     R.r05_7_defaults(ctx)
     R.r05_8_hook_symmetry(ctx)
+    D.r06_7_alias_bookkeeping(ctx, 'R05.9')
+    H.r15_2_do_nothing_exits(ctx, 'R05.10')
     H.r14_4_matches_total(ctx, 'R05.5')
     H.r15_4_no_node_twice(ctx, 'R05.6')
